@@ -3,6 +3,9 @@
 # reports whether the outcome still matches (mutations caught, benign changes quiet).
 cd /verif
 fail=0
+# one snapshot of the harness sources for the whole regression
+export SCR=${SCR:-/tmp/scrall}
+mkdir -p $SCR-sim/src; rsync -a --delete /verif/sim/src/ $SCR-sim/src/; export SCR_NOSYNC=1
 for d in seeded/*/; do
   name=$(basename $d)
   [ -f $d/patch.diff ] || continue
@@ -14,7 +17,7 @@ ran=m.get('ran','')
 print(' '.join(re.findall(r'C\d\d', ran.split('quick')[-1])))")
   benign=$(python3 -c "import json;print('1' if 'benign' in '$name' else '0')")
   expected_miss=$(python3 -c "import json;print('1' if json.load(open('$d/meta.json')).get('expected_miss') else '0')")
-  out=$(tools/run_seeded.sh $d quick $ids 2>&1 | grep -E "CAUGHT-BY" | tail -1)
+  out=$(SCR=${SCR:-/tmp/scrall} tools/run_seeded_scratch.sh $d quick $ids 2>&1 | grep -E "CAUGHT-BY" | tail -1)
   caught=$(echo "$out" | sed 's/CAUGHT-BY://')
   if [ "$benign" = "1" ]; then
     if echo "$caught" | grep -q none; then echo "ok    $name (benign, no alarm)"; else echo "ALARM $name:$caught"; fail=1; fi
@@ -24,5 +27,4 @@ print(' '.join(re.findall(r'C\d\d', ran.split('quick')[-1])))")
     elif echo "$caught" | grep -q none; then echo "MISS  $name"; fail=1; else echo "ok    $name caught by$caught"; fi
   fi
 done
-find /verif/replays -name "*.json" -delete
 exit $fail
